@@ -685,3 +685,18 @@ Proof.
   { intros ->. exact Hhead'. }
   exists secs, tz, b. subst. auto 10.
 Qed.
+
+Theorem axfr_outcome_dichotomy : forall fin z0 ser ws rest,
+  chunking tAXFR (soa_rr fin :: rest) ws -> Forall wire_rec rest ->
+  (exists e n, inbound_xfr z0 tAXFR ser false ws = (Error e z0, n)) \/
+  (exists B b extra z' n,
+     inbound_xfr z0 tAXFR ser false ws = (Done z', n) /\
+     rest = B ++ soa_rr b :: extra /\ Forall okrec B /\ v_soa b = v_soa fin /\
+     zeq z' (zput soakey (v_ttl b, [v_soa b]) (adds [] (erase B)))).
+Proof.
+  intros fin z0 ser ws rest Hch Hwr.
+  destruct (inbound_xfr z0 tAXFR ser false ws) as [[z'|e z] n] eqn:E.
+  - right. destruct (axfr_done_is_denotation fin z0 ser ws rest z' n Hch Hwr E) as (B & b & extra & H1 & H2 & H3 & H4).
+    exists B, b, extra, z', n. auto 10.
+  - left. pose proof (error_leaves_zone _ _ _ _ _ _ _ _ E). subst z. eauto.
+Qed.
